@@ -13,30 +13,51 @@ KEY = "follows-redirect-drops-body"
 CORPUS = os.path.join(fw.ROOT, "corpus", "C20", "known", "redirect_drops_body.txt")
 
 
+CLIENTS = {0: "checkNever (fix F45 = /repo 2a7fc8c: no redirect is followed)",
+           2: "checkSameMethod (fix F45b: redirects that keep the method are followed, at most ten requests)",
+           1: "checkDefault (no CheckRedirect: net/http follows everything)", 3: "follows 302 but not 307 (no model)"}
+ACCEPTED = (0, 2)   # AFTER F45b IS COMMITTED: (2,)  - and drop the first disjunct of Tie.ToolsRelayRedirect.n2hClient_shape
+
+
 def declare(ctx):
     ctx.trusted += [
-        "net/http client redirect rules (redirectBehavior: 301/302/303 -> GET without body, 307/308 keep method and body, "
-        "no Location -> answer returned, 10-redirect stop; ErrUseLastResponse) as modelled in Nsq.Model.RelayRedirect.doReq - "
-        "compared with the real client inside the real nsq_to_http binary on every run; go2lean kind `clientlit`",
+        "net/http client redirect rules (Client.do / redirectBehavior: 301/302/303 -> GET without body, 307/308 keep method and "
+        "body (GetBody of the bytes.Buffer), the follow-up URL is the Location, no Location -> answer returned, CheckRedirect asked "
+        "before every follow-up request with via = the requests made so far, ErrUseLastResponse -> the 3xx answer is returned, "
+        "defaultCheckRedirect = 10-redirect stop) as modelled in Nsq.Model.RelayRedirect.doReq - compared with the real client inside "
+        "the real nsq_to_http binary on every run; the publishers use only the methods GET and POST (the translated CheckRedirect "
+        "sees the method as `is it POST`); go2lean kind `clientlit` (translation of the CheckRedirect function)",
     ]
     ctx.assumptions += [
-        "http_fin_only_after_body_accepted_this_tree: F45 (/repo 2a7fc8c: nsq_to_http does not follow redirects) is committed, "
-        "Tie.ToolsRelayRedirect.n2hClient_shape accepts ONLY the client with CheckRedirect = ErrUseLastResponse (follows = false), the "
-        "probe of the real binary must agree, and the model replays every `rd` op with follow = 0. About the client BEFORE F45: "
-        "http_fin_only_after_body_accepted_following_false (finding follows-redirect-drops-body, listed fixed, replayed on every run: a "
-        "reproduction is a VIOLATION) and ..._following_partial (hypothesis NoLossyRedirect: only 307/308, only for POST)",
+        "http_fin_only_after_body_accepted_this_tree: the client is Tie.ToolsRelayRedirect.treeCheck, the CheckRedirect function of "
+        "main()'s http.Client TRANSLATED by go2lean; n2hClient_shape accepts exactly two functions: checkNever (F45 = /repo 2a7fc8c, "
+        "committed) and checkSameMethod (F45b, fixes/F45b_redirect_keeps_method.patch, proposed: follow iff net/http kept the method "
+        "and fewer than ten requests were made); the real binary is probed (POST answered 307 / 302 with a Location: does a second "
+        "request arrive?) and must be the translated client; every `rd` op is replayed with the translated client. POST publisher: "
+        "no hypothesis (http_fin_only_after_body_accepted: any method-preserving client, every world). GET publisher with the F45b "
+        "client: hypothesis KeepsQuery - every Location answered to a GET repeats its query string, which carries the message "
+        "(http_fin_only_after_body_accepted_get_partial; without it ..._get_false: GET ?d=p -> 302 Location: /elsewhere -> 200 -> FIN); "
+        "what holds without it is http_fin_chain_accepted (first request of the chain carried the message to the configured "
+        "address, every request was a GET, the chain ended in 200) - the harness counts such FINs as `get_fin_by_queryless_redirect` "
+        "and they are NOT reported as violations. About the client BEFORE F45: http_fin_only_after_body_accepted_following_false "
+        "(finding follows-redirect-drops-body, listed fixed, replayed on every run: a FIN after a followed redirect that CHANGED "
+        "the method is a VIOLATION) and ..._following_partial (hypothesis NoLossyRedirect: only 307/308, only for POST)",
     ]
 
 
-def regenerated_follows():
-    """the shape of `httpclient = &http.Client{…}` in main(), as regenerated by go2lean (None if unreadable)"""
-    p = os.path.join(fw.LEAN, "Nsq", "Gen", "ToolsRelayRedirect.lean")
-    try:
-        txt = open(p).read()
-    except OSError:
+def regenerated_client(ctx):
+    """the client of this tree as the tie computes it from the TRANSLATED CheckRedirect function
+    (Tie.ToolsRelayRedirect.treeClientCode: 0 = checkNever, 2 = checkSameMethod); None if the tie module is not built"""
+    f = os.path.join(ctx.work, "rd_client_eval.lean")
+    with open(f, "w") as fh:
+        fh.write("import Nsq.Tie.ToolsRelayRedirect\n#eval Nsq.Tie.ToolsRelayRedirect.treeClientCode\n"
+                 "#eval Nsq.Gen.ToolsRelayRedirect.n2hClient_CheckRedirect_translated\n")
+    rc, out = ctx.run_cmd(["lake", "env", "lean", f], timeout=300, cwd=fw.LEAN)
+    ls = [l.strip() for l in out.splitlines() if l.strip()]
+    if rc != 0 or len(ls) < 2 or not ls[0].isdigit() or ls[1] != "true":
+        ctx.log("redirect leg: could not evaluate the translated CheckRedirect of this tree: %s" % out[-400:])
         return None
-    m = re.search(r"def n2hClient_CheckRedirect : Option \(List String\) := (none|some)", txt)
-    return None if not m else (1 if m.group(1) == "none" else 0)
+    return int(ls[0])
 
 
 def accepted(post, status):
@@ -62,57 +83,98 @@ def leg(ctx, binp, tool, corr_broken):
         return
     ops = open(os.path.join(out, name + ".ops")).read().splitlines()
     impl = open(os.path.join(out, name + ".impl")).read().splitlines()
-    # F45 is committed: the model is the client that does NOT follow redirects, whatever the harness probed (the op carries the probe)
-    mops = os.path.join(out, name + ".model.ops")
-    with open(mops, "w") as fh:
-        for o in ops:
-            fh.write(re.sub(r"^rd \d+ ", "rd 0 ", o) + "\n")
-    rc2, mout = ctx.driver("e8", stdin_path=mops)
-    model = mout.splitlines()
     probe = None
     for l in log.splitlines():
         if l.startswith("REDIRECT-PROBE"):
-            probe = int(l.split("follows=")[1].split()[0])
+            probe = int(l.split("client=")[1].split()[0])
         if l.startswith("REDIRECT-ERROR"):
             corr_broken.append("redirect leg: " + l)
-    regen = regenerated_follows()
-    if probe != 0 or regen != 0:
-        corr_broken.append("http.Client shape: main() regenerates as follows=%s, the real binary behaves as follows=%s; "
-                           "expected 0 / 0 (F45, /repo 2a7fc8c)" % (regen, probe))
+    regen = regenerated_client(ctx)
+    if regen not in ACCEPTED or probe != regen:
+        corr_broken.append("http.Client shape: the CheckRedirect of main() translates to client %s [%s], the real binary behaves as "
+                           "client %s [%s]; accepted: the two must agree and be one of %s" %
+                           (regen, CLIENTS.get(regen, "untranslatable / tie not built"), probe, CLIENTS.get(probe, "?"),
+                            " / ".join(CLIENTS[k] for k in ACCEPTED)))
+    # the model is the TRANSLATED client of this tree, whatever the harness probed (the op carries the probe); if the
+    # translation is not an accepted one (the tie is broken anyway) the reference is the accepted client the binary behaves
+    # as, else the committed one (F45)
+    mclient = regen if regen in ACCEPTED else (probe if probe in ACCEPTED else ACCEPTED[0])
+    mops = os.path.join(out, name + ".model.ops")
+    with open(mops, "w") as fh:
+        for o in ops:
+            fh.write(re.sub(r"^rd \d+ ", "rd %d " % mclient, o) + "\n")
+    rc2, mout = ctx.driver("e8", stdin_path=mops)
+    model = mout.splitlines()
     hist = {}
     for l in log.splitlines():
         if l.startswith("HIST "):
             w = l.split()
             hist[w[1]] = int(w[2])
-    # direct oracle, independent of the model: FIN => enough requests that CARRIED the body (publisher's method) were accepted
+    # direct oracle, independent of the model: FIN => enough requests that CARRIED the body (publisher's method) were accepted.
+    # GET publisher + a client that follows: the follow-up GET goes to the URL the destination's Location names; when that URL
+    # does not repeat the query the message is not in it. Such a FIN is what http_fin_chain_accepted describes (hypothesis
+    # KeepsQuery of ..._get_partial violated by the destination): counted, not a violation - but only if every request of the
+    # handling was a GET and at least `need` chains started with a GET carrying the message and ended in 200.
     nfind = 0
+    nqueryless = 0
     worst = None
+    changed_method = []      # requests with another method than the publisher's: a followed 301/302/303 of a POST
+    longest = 0              # the longest run of requests made for one address (a chain): at most ten
     for o, i in zip(ops, impl):
         w = o.split()
         mode, naddr, post, body = w[2], int(w[3]), w[4] == "1", w[7]
         resp, _, wire = i.partition(" | ")
         reqs = [x.split(":") for x in wire.split()]
         ctx.count_case(o + "|" + i, nontrivial=len(reqs) > 0)
+        if any(q[1] != ("POST" if post else "GET") for q in reqs):
+            changed_method.append((o, i))
+        if len(reqs) > 10 * (naddr if mode == "all" else 1):
+            longest = max(longest, len(reqs))
         if resp != "fin":
             continue
-        delivered = [q for q in reqs if q[2] == body and q[1] == ("POST" if post else "GET") and accepted(post, q[3])]
+        meth = "POST" if post else "GET"
+        delivered = [q for q in reqs if q[2] == body and q[1] == meth and accepted(post, q[3])]
         need = naddr if mode == "all" else 1
-        if len(delivered) < need:
-            nfind += 1
-            if worst is None or len(o) < len(worst[0]):
-                worst = (o, i, len(delivered), need, len(reqs))
+        if len(delivered) >= need:
+            continue
+        if probe == 2 and not post and all(q[1] == "GET" for q in reqs):
+            # split the wire into chains: a chain starts at a request to a configured address that carries the message and is
+            # not the target of the previous answer's redirect
+            chains = []
+            for q in reqs:
+                if q[2] == body and int(q[0]) < naddr and (not chains or not chains[-1][-1][3].isdigit()
+                                                           or not (300 <= int(chains[-1][-1][3]) < 400)):
+                    chains.append([q])
+                elif chains:
+                    chains[-1].append(q)
+            okc = [c for c in chains if c[-1][3] == "200"]
+            if len(okc) >= need and any(len(c) > 1 for c in okc):
+                nqueryless += 1
+                continue
+        nfind += 1
+        if worst is None or len(o) < len(worst[0]):
+            worst = (o, i, len(delivered), need, len(reqs))
     if worst:
         o, i, have, need, nreq = worst
         reqs = [x.split(":") for x in i.partition(" | ")[2].split()]
-        followed = nreq > need or any(q[2] == "none" for q in reqs)   # more requests than addresses asked / a request without the message
-        if followed:
+        post = o.split()[4] == "1"
+        changed = any(q[1] != ("POST" if post else "GET") for q in reqs)   # a request with another method than the publisher's
+        followed = nreq > need or any(q[2] == "none" for q in reqs)
+        if changed or followed:
             key = KEY                      # the finding F45 repaired (listed fixed): a reproduction is a VIOLATION
         else:
             key = "fin-without-accepted-body-request"
         ctx.violation(key, "nsq_to_http (real binary) FINished a message although only %d of the %d required requests that carried "
                       "its body were accepted: the http.Client followed a redirect and dropped the body; wire = %s  [%d of %d "
                       "messages]" % (have, need, i, nfind, len(ops)), o + "\nobserved: " + i + "\n")
-    ctx.corr[name] = {"follows_probe": probe, "follows_regenerated": regen, "lines": len(ops), "fin_without_delivery": nfind,
+    if probe in ACCEPTED and changed_method:
+        corr_broken.append("redirect leg: the client of this tree sent %d request(s) with another method than the publisher's "
+                           "(a redirect that changes the method was followed), e.g. `%s` -> %s" %
+                           (len(changed_method), changed_method[0][0][:160], changed_method[0][1][:200]))
+    if longest:
+        corr_broken.append("redirect leg: %d requests for one handling (the limit is ten per Publish)" % longest)
+    ctx.corr[name] = {"requests_with_changed_method": len(changed_method), "over_limit_wire": longest, "client_probe": probe, "client_translated": regen, "client_name": CLIENTS.get(regen), "lines": len(ops),
+                      "fin_without_delivery": nfind, "get_fin_by_queryless_redirect": nqueryless,
                       "histogram": hist, "oracle": [l for l in log.splitlines() if l.startswith("ORACLE-DONE")]}
     if ops:
         ctx.add_sample({"op": ops[1][:200] if len(ops) > 1 else ops[0][:200], "impl": impl[1][:200] if len(impl) > 1 else impl[0][:200]})
